@@ -41,7 +41,7 @@ ASSUMPTIONS = [
     "all '/'-offset cases of one task share one forked child (fork is very expensive on the host) which wipes its chroot between cases; every engine/trigger/package object is created per case and a single-case replay must reproduce the batch verdict (checked by the runner)",
 ]
 BOUNDS = {
-    "quick": "17.7k executions. install: 60 env.d configurations (4 CONFIG_PROTECT x 3 MASK x 5 COLLISION_IGNORE spellings) + 8 via extra_protects/extra_disables, x 9 paths x 3 existing-file states x 4 pending-update states at '/' (2 at a non-'/' offset); uninstall: 60 configs x 9 paths x 3 live states x 2 offsets; replace: 16 configs x 9 paths x 4 states x {no dropped file, dropped unmodified, dropped modified} x 2 offsets",
+    "quick": "3.4k executions (3,438), a covering selection of the thorough product (all 9 paths everywhere). install at '/': all 12 CONFIG_PROTECT x MASK combinations without COLLISION_IGNORE x 7 existing/pending states, plus 12 COLLISION_IGNORE configurations (4 spellings x 2-4 CONFIG_PROTECT/MASK pairs) and 4 extra_protects/extra_disables configurations x 4 deciding states; install at a non-'/' offset: 12 x 4 + 6 x 3 states; uninstall: 16 configurations x {absent,} unmodified, modified x 2 offsets; replace: 8 configurations x {identical, differing, differing+pending, differing+dropped unmodified, differing+dropped modified} x 2 offsets",
     "thorough": "318k executions. install: 280 configurations (5 x 4 x 7 x {env.d, extra}) x 9 paths x 4 existing x 9 pending states x 2 offsets; + junk/decoy ._cfg names; + two-file packages (same directory, two protected directories; 25 state pairs); replace over all configurations x 8 states x 3 dropped-file states; uninstall x 4 live states",
 }
 TIME_CAP = {"thorough": 840}
@@ -581,8 +581,99 @@ def file_states(tier, kind="full"):
 JUNK = ["._cfgXXXX_vq", "._cfg00_vq", "._cfg0007_other", "._cfg0001-vq"]
 
 
+def _cfg(prot, mask, ign=None, decl="plain", src="envd"):
+    return {"protect": prot, "mask": mask, "ignore": ign, "igdecl": decl, "src": src}
+
+
+def quick_cases():
+    """Every-change tier (~3.4k executions): a covering selection of the thorough product.  Every CONFIG_PROTECT x MASK
+    combination without COLLISION_IGNORE gets the full state list; every COLLISION_IGNORE spelling (against two
+    CONFIG_PROTECT x two MASK values) and four extra_protects configurations get the deciding states; all 9 paths
+    everywhere.  predicted_classes() documents that no outcome class of the larger former selection is lost."""
+    out = []
+    base = [_cfg(pr, m) for pr in PROTECTS["quick"] for m in MASKS["quick"]]  # 12
+    ign = []  # 12: the SPACE_SEPARATED spellings against 2 x 2, the plain-string spellings against the diagonal
+    for i, d in IGNORES["quick"][1:]:
+        for pr, m in (("/etc", None), ("/etc", "/etc/m"), ("/etc /opt/c", None), ("/etc /opt/c", "/etc/m")):
+            if d == "ss" or (pr, m) in (("/etc", None), ("/etc /opt/c", "/etc/m")):
+                ign.append(_cfg(pr, m, i, d))
+    ign1 = [next(c for c in ign if (c["ignore"], c["igdecl"]) == k) for k in IGNORES["quick"][1:]]  # one per spelling
+    extra = [_cfg("/etc /opt/c", None, src="extra"), _cfg("/opt/c/", "/etc/m /opt/c/m", src="extra"),
+             _cfg("/etc /opt/c", "/etc/m /opt/c/m", "*.ign", "ss", src="extra"), _cfg("/opt/c/", None, "*.ign", "ss", src="extra")]  # fmt: skip
+    p03 = [[0, "D"], [3, "I"]]
+    pdd = [[0, "D"], [3, "D"]]
+    full = [("A", []), ("I", []), ("I", p03), ("D", []), ("D", [[0, "I"]]), ("D", p03), ("D", pdd)]
+    deciding = [("I", []), ("D", []), ("D", [[0, "I"]]), ("D", pdd)]
+    # 1. install, one file
+    for cfgs, states in ((base, full), (ign + extra, deciding)):
+        for cfg in cfgs:
+            for p in PATHS:
+                for ex, pend in states:
+                    out.append(dict(cfg, op="install", mode="root", files=[{"p": p, "ex": ex, "pend": pend}]))
+    for cfgs, states in ((base, [("A", []), ("I", []), ("D", []), ("D", p03)]), (ign1 + extra[:2], [("I", []), ("D", []), ("D", p03)])):
+        for cfg in cfgs:
+            for p in PATHS:
+                for ex, pend in states:
+                    out.append(dict(cfg, op="install", mode="offset", files=[{"p": p, "ex": ex, "pend": pend}]))
+    # 2. uninstall, one file (ConfigProtectUninstall only reads env.d)
+    for cfg in base + [_cfg("/etc /opt/c", None, i, d) for i, d in IGNORES["quick"][1:]]:
+        for mode in ("root", "offset"):
+            for p in PATHS:
+                for live in ("A", "R", "D") if cfg["ignore"] is None else ("R", "D"):
+                    out.append(dict(cfg, op="uninstall", mode=mode, ufiles=[{"p": p, "live": live}]))
+    # 3. replace: file shipped by both packages + optionally a file dropped by the new package, in the same directory
+    rcfgs = [_cfg(pr, m) for pr in ("/etc", "/etc /opt/c") for m in (None, "/etc/m")] + [_cfg("/etc", None, "*.ign", "ss"), _cfg("/etc /opt/c", "/etc/m", "*.ign", "ss")]
+    rcfgs += [_cfg(None, None), _cfg("/opt/c/", None)]  # CONFIG_PROTECT unset / without /etc: pkgcore's built-in /etc
+    for cfg in rcfgs:
+        for mode in ("root", "offset"):
+            for p in PATHS:
+                d = p.rsplit("/", 1)[0]
+                for ex, pend, dropped in (("I", [], None), ("D", [], None), ("D", [], "R"), ("D", [], "D"), ("D", [[0, "D"]], None)):
+                    c = dict(cfg, op="replace", mode=mode, files=[{"p": p, "ex": ex, "pend": pend}])
+                    if dropped:
+                        c["ufiles"] = [{"p": f"{d}/vqdropped", "live": dropped}]
+                    out.append(c)
+    return out
+
+
+def predicted_classes(cases):
+    """Outcome classes a correct implementation (which, like pkgcore, always also protects /etc) produces for the
+    given cases - used to compare case selections without executing them; work() measures the real ones."""
+    out = set()
+    for case in cases:
+        pre = pre_state(case)
+        tag = f"{case['op']}/{case['mode']}"
+        over = dict(case, protect=((case["protect"] or "") + " /etc").strip())
+        for f in case.get("files", ()):
+            p, old, new = f["p"], pre.get(f["p"]), CONTENT["N"]
+            pend = [CONTENT[t] for _, t in f.get("pend", ())]
+            if old is not None and old != new and ref_protected(p, case):
+                o = "protected-reused-number" if new in pend else "protected-new-number" + ("-after-pending" if pend else "")
+            elif old is None:
+                o = "fresh-install"
+            elif old == new:
+                o = "identical-kept"
+            else:
+                o = ("overprotected" if ref_protected(p, over) else "unprotected-overwritten") + ":" + why_unprotected(p, case)
+            out.add(f"{tag}/{o}")
+        for f in case.get("ufiles", ()):
+            p, live = f["p"], pre.get(f["p"])
+            if live is not None and live != CONTENT["R"] and ref_protected(p, case):
+                o = "modified-kept"
+            elif live is None:
+                o = "already-absent"
+            elif live == CONTENT["R"]:
+                o = "unmodified-removed"
+            else:
+                o = ("overprotected" if ref_protected(p, over) else "unprotected-removed") + ":" + why_unprotected(p, case)
+            out.add(f"{tag}/{o}")
+    return out
+
+
 def all_cases(tier):
     """The fixed, ordered case list (simplest first)."""
+    if tier == "quick":
+        return quick_cases()
     out = []
     cfgs = configs(tier)
     cfgs_envd = configs(tier, ("envd",))
